@@ -183,7 +183,7 @@ def ob_length(ctx, N):
 
 def obligations(tier):
     quick = tier == 'quick'
-    N = 3 if quick else 5
+    N = 3 if quick else 6
     obs = []
     for kind in ('preamble', 'diff', 'last-diff'):
         obs.append(Ob('truncate[%s]' % kind, ob_truncate, dict(kind=kind, N=N), must_reach=['DiffXReader._read_content'],
